@@ -770,7 +770,7 @@ def run(tier, seed):
     exh_len = 3 if tier == "quick" else 4
     hists = [list(h) for n in range(1, exh_len + 1) for h in itertools.product(ALPHABET, repeat=n)]
     n_exh = len(hists)
-    n_rand = 2500 if tier == "quick" else 30000
+    n_rand = 2500 if tier == "quick" else 20000
     for _ in range(n_rand):
         n = rng.randint(exh_len + 1, 12)
         # bias towards histories that begin by defining the symbol
